@@ -11,6 +11,28 @@ claim('C20', 'Lean theorems for all radio values (omega over div/mod) + complete
       FLOAT_NOTE + 'Model of the three comm-state functions is hand-written (tie complete: finite domain).',
       'DESIGN.md §5 C20')
 
-for p in ['C01', 'C02', 'C03', 'C04', 'C05', 'C06', 'C07', 'C08', 'C09', 'C10', 'C11', 'C12', 'C13', 'C14', 'C15',
+claim('C01', 'Lean theorem over all payloads (table-generic induction + kernel-decided table = layout obligations on tables regenerated from source)',
+      'C01_decode_matches_layout: for every payload bit string of nominal length, the message decoded by the model '
+      'with the field tables read from the current source has the class the payload\'s own type/discriminator bits '
+      'select and every field equals what the independent layout specification (Spec/Layout.lean, from ITU-R M.1371 / '
+      'gpsd) assigns to the bits at its offset (signedness, scale, six-bit text, enumeration, rate of turn); '
+      'C01_rejects for unsupported types/part numbers. 35 table=layout equalities, MSG_CLASS, dispatch trees, enum and '
+      'ROT tables are kernel-decided on every run from the regenerated tables. The generic engine is tied to '
+      'Payload.from_bitarray by differential execution on per-field sentinel sweeps for all 35 layouts, and pyais is '
+      'checked against the Lean layout spec on the same inputs.',
+      FLOAT_NOTE + 'Spec/Layout.lean is trusted to say what the standard says. Float results are compared as exact '
+      'decimals (IEEE rounding inside round()/division modelled in exact arithmetic).',
+      'DESIGN.md §5 C01')
+
+claim('C11', 'Lean theorems for every payload, every cut position (per-offset characterisation of the cursor loop) + converter-totality obligations decided on regenerated tables',
+      'C11_total (decoding never fails, any length), C11_covered (a field inside the first L bits has the same value '
+      'in the truncated and the full message), C11_absent (a field starting at or beyond L is None), C11_variant '
+      '(a prefix containing the discriminator bits selects the same variant) for all tables read from the source; '
+      'tie to the code by differential execution on every class x every prefix length, directly and through armored '
+      'sentences; the implementation is additionally checked against the property itself on the same prefixes.',
+      FLOAT_NOTE + 'The value of a field cut in the middle is unspecified by the property and not compared.',
+      'DESIGN.md §5 C11')
+
+for p in ['C02', 'C03', 'C04', 'C05', 'C06', 'C07', 'C08', 'C09', 'C10', 'C12', 'C13', 'C14', 'C15',
           'C16', 'C17', 'C18', 'C19']:
     PENDING[p] = 'check under construction in this commit (model exists, theorems and harness not yet registered); will be claimed at proof level'
